@@ -85,7 +85,32 @@ fn gen_pat(rng: &mut Rng, depth: usize) -> String {
     }
 }
 
-const FIXED: [&str; 12] = [
+/// patterns for NUL-terminated records (the pattern must be able to match NUL, else the search is downgraded)
+const FIXED_NUL: [&str; 10] = [
+    "a\\x00",
+    "b\\x00c",
+    "\\x00",
+    "(?s)a.*b",
+    "x\\x00?",
+    "[ab]\\x00",
+    "c\\x00\\x00",
+    "^b|a\\x00",
+    "\\x00a|b\\x00",
+    "(?s)b.c",
+];
+
+const FIXED: [&str; 22] = [
+    // an empty match on a line, then a non-empty match later on the same line that crosses the terminator
+    "^\\b|b\\nc",
+    "^|b\\nc",
+    "\\b|a\\nb",
+    "x*\\b|c\\na",
+    "^|a\\n",
+    "(?:^\\b)|b \\n",
+    "\\b|b\\n,",
+    "^|c\\nb|b\\nc",
+    "$|b\\nc",
+    "\\B|a\\nb",
     "\\Ab|a\\n",
     "a\\nb|b\\nc",
     "x\\n?",
@@ -103,12 +128,19 @@ const FIXED: [&str; 12] = [
 fn gen_input(rng: &mut Rng, lt: Lt) -> Vec<u8> {
     let n = rng.range(0, 6);
     let mut out = vec![];
+    // records of NUL data also contain the other terminator byte (LF), CRLF lines a lone CR now and then
+    let alpha: &[u8] = match lt {
+        Lt::Nul => b"aabbxc \n\n",
+        Lt::Crlf => b"aabbxc \r",
+        Lt::Lf => b"aabbxc ,",
+    };
     for i in 0..n {
         for _ in 0..rng.range(0, 3) {
-            out.push(*rng.pick(b"aabbxc "));
+            out.push(*rng.pick(alpha));
         }
         if i + 1 < n || rng.chance(3, 4) {
             match lt {
+                Lt::Nul => out.push(0),
                 Lt::Crlf => {
                     if rng.chance(3, 4) {
                         out.push(b'\r');
@@ -123,7 +155,7 @@ fn gen_input(rng: &mut Rng, lt: Lt) -> Vec<u8> {
 }
 
 fn gen_case(rng: &mut Rng) -> C13 {
-    let lt = *rng.pick(&[Lt::Lf, Lt::Lf, Lt::Lf, Lt::Crlf]);
+    let lt = *rng.pick(&[Lt::Lf, Lt::Lf, Lt::Lf, Lt::Crlf, Lt::Nul]);
     let noctx = rng.chance(1, 3);
     let cfg = Cfg {
         lt,
@@ -137,10 +169,18 @@ fn gen_case(rng: &mut Rng) -> C13 {
         bin: Bin::None,
     };
     let input = gen_input(rng, lt);
-    let pat = match rng.below(10) {
-        0 => Pat::Lit { needle: [&b"a\nb"[..], b"x\n", b"\n", b"b\nc", b"a"][rng.below(5)].to_vec() },
-        1 | 2 | 3 => Pat::Re { dotall: rng.chance(1, 4), pattern: FIXED[rng.below(FIXED.len())].to_string() },
-        _ => Pat::Re { dotall: rng.chance(1, 4), pattern: gen_pat(rng, 2) },
+    let pat = if lt == Lt::Nul {
+        match rng.below(10) {
+            0 | 1 => Pat::Lit { needle: [&b"a\0b"[..], b"x\0", b"\0", b"b\0c", b"a\0"][rng.below(5)].to_vec() },
+            2 | 3 | 4 | 5 | 6 => Pat::Re { dotall: rng.chance(1, 4), pattern: FIXED_NUL[rng.below(FIXED_NUL.len())].to_string() },
+            _ => Pat::Re { dotall: rng.chance(1, 4), pattern: format!("{}\\x00{}", gen_pat(rng, 1), gen_pat(rng, 1)) },
+        }
+    } else {
+        match rng.below(10) {
+            0 => Pat::Lit { needle: [&b"a\nb"[..], b"x\n", b"\n", b"b\nc", b"a"][rng.below(5)].to_vec() },
+            1 | 2 | 3 | 4 => Pat::Re { dotall: rng.chance(1, 4), pattern: FIXED[rng.below(FIXED.len())].to_string() },
+            _ => Pat::Re { dotall: rng.chance(1, 4), pattern: gen_pat(rng, 2) },
+        }
     };
     C13 { cfg, pat, input }
 }
